@@ -49,6 +49,7 @@ PATH_RULES = {
     "P-SHRINK": "weight / metadata of a record are not read after the record was removed (shrinking remove_node)",
     "P-LOOPVAR": "no loop variable (key component) is used after its loop in remove_node",
     "P-NEIGH": "every return of get_neighbors passes through removal of the queried node",
+    "E-LIVEITER": "no loop iterates an internal table (or a list stored in it) while its body writes that table, directly or via self.<method>()",
     "E-PURE": "query methods (everything that is not a declared mutator) never modify self, directly or through callees / lent references",
     "E-SHARED": "no single mutable object becomes the value of several table entries (dict.fromkeys(keys, {}), [{}] * n)",
     "E-FRESHCOPY": "copy() is copy.deepcopy(self)",
@@ -75,6 +76,7 @@ def run_container(ctx, prop: str, cls: str) -> Result:
     RC.check_atomic(ctx, res, cls, MUTATORS_ATOMIC)
     RC.check_neighbors(ctx, res, cls)
     RC.check_record_creation_guarded(ctx, res, cls)
+    RC.check_live_iteration(ctx, res, cls)
     # ---- queries are read-only; mutators do not share one mutable object between entries; copy is deep
     eff = Effects(ctx)
     mutators, queries = [], []
